@@ -7,6 +7,7 @@ import (
 	"errors"
 	"fmt"
 	"io"
+	"time"
 
 	connect "github.com/bufbuild/connect-go"
 )
@@ -309,6 +310,10 @@ type simCodec struct {
 	// ownTypeEOF: decodes the service's own message type only and reports
 	// anything else with an error that wraps io.EOF
 	ownTypeEOF bool
+	// slow: marshalling one of the service's messages takes this much fake
+	// time (a large message, a slow serialiser); done is told when it ends
+	slow time.Duration
+	done func(time.Time)
 }
 
 // marshalFailMarker: a message whose value starts with this cannot be
@@ -330,6 +335,12 @@ func (c *simCodec) Marshal(m any) ([]byte, error) {
 	}
 	if bv, ok := m.(*Msg); ok && bytes.HasPrefix(bv.GetValue(), marshalFailMarker) {
 		return nil, errors.New("sim: message cannot be marshalled")
+	}
+	if _, ok := m.(*Msg); ok && c.slow > 0 {
+		time.Sleep(c.slow)
+		if c.done != nil {
+			c.done(time.Now())
+		}
 	}
 	return c.inner.Marshal(m)
 }
